@@ -83,6 +83,27 @@ class Spec:
         return tot
 
 
+def spec_operator(nc, na):
+    """(1 / (nc! na!)) d^{p..}_{q..} a+_p .. a_q ..   with fresh general indices (documented operator convention)"""
+    from adcgen.sympy_objects import AntiSymmetricTensor
+    from math import factorial
+    g = R.generic(general=nc + na)[("general", "")] if nc + na else []
+    cr, an = g[:nc], g[nc:]
+    return Rational(1, factorial(nc) * factorial(na)) * AntiSymmetricTensor("d", tuple(cr), tuple(an)) * R.exc_string(cr, an)
+
+
+def spec_expectation(spec, n, npart):
+    """order-n coefficient of <psi|d|psi>/<psi|psi> at the operator level (closed expression, fresh indices)"""
+    tot = []
+    for a in range(n + 1):
+        b = n - a
+        d_b = []
+        for c in range(b + 1):
+            d_b += spec.closed(R.psi(c, "bra", spec.singles) * spec_operator(npart, npart) * R.psi(b - c, "ket", spec.singles))
+        tot += R.mul(spec.sc, d_b, spec.norm(a))
+    return tot
+
+
 def amp_tensor(order, virt, occ):
     return ("T", "m", f"t{order}", tuple(virt), tuple(occ), 0)
 
